@@ -26,7 +26,8 @@ RULE_TEXT = (
     "C19.a effect trace of FakeSnow.connect at the auto-create start point: exists-check and ATTACH / CREATE SCHEMA lie "
     "between with-enter and with-exit of a lock stored on the instance (or module); C19.b=C03.a+C13.b; C19.c "
     "module-level mutable inventory == {server.sessions, server.shared_fs}; no in-place store through a module-level "
-    "AST constant on any statement-kind trace."
+    "AST constant on any statement-kind trace. C19.a is evaluated for every instance configuration x catalog state in "
+    "which connect creates something shared."
 )
 TRUSTED = ["CPython ast", "threading.Lock/RLock used in a with statement is mutual exclusion", "DuckDB cursors are safe to use from different threads"]
 
